@@ -48,7 +48,7 @@ def run(ctx, drv):
     ctx.nontrivial_rule = ("generations of real runs (NSGA-II, NSGA-II+archive, NSGA-III, SPEA2, GDE3, eps-NSGA-II, eps-MOEA, OMOPSO, "
                            "CMA-ES, GA, ES) on problems with 1-5 objectives, constrained and not, population sizes 4-13; one case = one "
                            "generation; non-trivial = front 0 of parents+offspring is a proper subset of them; distinct by "
-                           "(algorithm, seed, step)")
+                           "(algorithm, seed, step) + SPEA2 selection as a function on random merged populations with ties; GA / ES survival replayed")
     reqs, post = [], []
 
     def ask(line, fn):
